@@ -166,7 +166,7 @@ macro_rules! c12_ws {
             let inc: bool = kani::any();
             let r = yp::parse_ws(s, i, inc);
             check_total(&buf, i, &r);
-            kani::cover!(matches!(r, Err((k, _, _)) if k == yp::INCOMPLETE_COMMENT), "unterminated comment");
+            kani::cover!(matches!(r, Err((k, _, _)) if k == yp::INCOMPLETE_COMMENT), "opt: unterminated comment");
             kani::cover!(matches!(r, Ok(j) if j > i), "something skipped");
         }
     };
